@@ -7,7 +7,8 @@ OUT="$HERE/seeded/RESULTS.tsv"
 : > "$OUT.tmp"
 : > "$OUT.jobs"
 export SWEEP_OUT="$OUT" SWEEP_HERE="$HERE"
-for d in $(ls -d "$HERE"/seeded/*/ | xargs -n1 basename); do
+# ONLY=<substring> restricts the sweep to the seeded changes whose name contains it (e.g. ONLY=-r5-)
+for d in $(ls -d "$HERE"/seeded/*"${ONLY:-}"*/ | xargs -n1 basename); do
   id=${d%%-*}
   extra=""
   case "$d" in
@@ -21,6 +22,8 @@ for d in $(ls -d "$HERE"/seeded/*/ | xargs -n1 basename); do
     C18-r3-2) extra="C06";; C08-r3-2) extra="C03";; C11-r3-1|C11-r3-2) extra="C10";;
     C06-r4-2) extra="C08";; C09-r4-1|C09-r4-2) extra="C08";; C10-r4-1) extra="C11";; C02-r4-1) extra="C03";; C13-r4-2) extra="C12";;
     C06-r4-1) extra="C18";; C11-r4-2) extra="C05";; C05-r4-2) extra="C11";;
+    C01-r5-1) extra="C03";; C01-r5-2) extra="C08";; C05-r5-1) extra="C11";; C11-r5-1) extra="C10";; C11-r5-2) extra="C14";; C10-r5-1) extra="C11";;
+    C17-r5-1) extra="C01";;
   esac
   echo "$d $id $extra" | sed 's/ *$//' >> "$OUT.jobs"      # (xargs -L continues a line that ends in a blank)
 done
